@@ -420,14 +420,15 @@ theorem feedAll_abs (k : Kind) (hwf : WF k) : ∀ (segs : List Bytes) (s : Bytes
 
 /-- **closed form of the body phase**: what `runBody` delivers and how it ends is a function of
 the concatenated byte stream (and of whether the peer closed) — nothing else. -/
-theorem runBody_closed_form (k : Kind) (hwf : WF k) (buf0 : Bytes) (segs : List Bytes) (closed : Bool) :
+theorem runBody_closed_form (k : Kind) (hwf : WF k) (buf0 : Bytes) (segs : List Bytes) (closed : Bool)
+    (bodiless : Bool := false) :
     let r := runBytes k (buf0 ++ flat segs) []
-    (runBody k buf0 segs closed).delivered = r.out ∧
-    (runBody k buf0 segs closed).fin =
+    (runBody k buf0 segs closed bodiless).delivered = r.out ∧
+    (runBody k buf0 segs closed bodiless).fin =
       (match r.st with
        | .done => .complete
        | .failed => .ioError
-       | .more => if closed then (if r.kind = .eof then .closeDelimited else .incomplete) else .pending) := by
+       | .more => if closed then (if r.kind = .eof || bodiless then .closeDelimited else .incomplete) else .pending) := by
   have h0 : feed { kind := k, buf := [], out := [] } buf0 = absPl k buf0 := by
     rw [feed_eq _ _ hwf rfl]
     simp [absPl]
@@ -460,7 +461,7 @@ theorem runBody_closed_form (k : Kind) (hwf : WF k) (buf0 : Bytes) (segs : List 
       have hd : isDone p.kind = false := by rw [hk]; exact hmore.2
       simp only [if_true, atEof, hpf, drainAll_eq _ _ hwfk, hb, runBytes, hd]
       simp only [Bool.false_eq_true, if_false, List.append_nil, hout, hrout, hk, true_and]
-      by_cases he : r.kind = .eof <;> simp [he]
+      by_cases he : r.kind = .eof <;> cases bodiless <;> simp [he]
 
 
 /-! ### `Length`: closed form -/
@@ -563,11 +564,12 @@ theorem runBytes_ctl {st : ChSt} {size : Nat} {b : UInt8} {st' : ChSt} {size' : 
   have hd : isDone (.chunked st size) = false := by cases st <;> simp_all [isDone]
   simp [runBytes, hd, stepByte, hnb, hc, optList]
 
-/-- the size line: hex digits accumulate exactly their value as long as it fits in a u64 -/
+/-- the size line after its first digit: hex digits accumulate exactly their value as long as it
+fits in a u64 -/
 theorem runBytes_digits (ds : List Nat) : ∀ (s : Nat) (tail acc : Bytes), (∀ d ∈ ds, d < 16) →
     digitsVal s ds < u64Bound →
-    runBytes (.chunked .size s) (ds.map hexDigitByte ++ tail) acc =
-      runBytes (.chunked .size (digitsVal s ds)) tail acc := by
+    runBytes (.chunked .sizeDigit s) (ds.map hexDigitByte ++ tail) acc =
+      runBytes (.chunked .sizeDigit (digitsVal s ds)) tail acc := by
   induction ds with
   | nil => intro s tail acc _ _; simp [digitsVal]
   | cons d ds ih =>
@@ -577,12 +579,40 @@ theorem runBytes_digits (ds : List Nat) : ∀ (s : Nat) (tail acc : Bytes), (∀
     have hge := digitsVal_ge ds (s * 16 + d)
     have hv' : digitsVal (s * 16 + d) ds < u64Bound := by simpa [digitsVal] using hv
     have hs : s * 16 < u64Bound := by omega
-    have hc : ctl .size s (hexDigitByte d) = some (.size, s * 16 + d) := by
+    have hc : ctl .sizeDigit s (hexDigitByte d) = some (.sizeDigit, s * 16 + d) := by
       simp only [ctl, hval, hs, if_true]
     simp only [List.map_cons, List.cons_append]
     rw [runBytes_ctl _ _ (by decide) (by decide) hc]
     rw [ih (s * 16 + d) tail acc (fun x hx => hd x (List.mem_cons_of_mem _ hx)) hv']
     simp [digitsVal]
+
+/-- a whole size line from its start (`Size`): at least one digit -/
+theorem runBytes_size_line (ds : List Nat) (hne : ds ≠ []) (s : Nat) (tail acc : Bytes)
+    (hd : ∀ d ∈ ds, d < 16) (hv : digitsVal s ds < u64Bound) :
+    runBytes (.chunked .size s) (ds.map hexDigitByte ++ tail) acc =
+      runBytes (.chunked .sizeDigit (digitsVal s ds)) tail acc := by
+  cases ds with
+  | nil => exact absurd rfl hne
+  | cons d ds =>
+    have hd16 : d < 16 := hd d List.mem_cons_self
+    have hval : hexVal8 (hexDigitByte d) = some d := hexVal8_digit ⟨d, hd16⟩
+    have hge := digitsVal_ge ds (s * 16 + d)
+    have hv' : digitsVal (s * 16 + d) ds < u64Bound := by simpa [digitsVal] using hv
+    have hs : s * 16 < u64Bound := by omega
+    have hc : ctl .size s (hexDigitByte d) = some (.sizeDigit, s * 16 + d) := by
+      simp only [ctl, hval, hs, if_true]
+    simp only [List.map_cons, List.cons_append]
+    rw [runBytes_ctl _ _ (by decide) (by decide) hc]
+    rw [runBytes_digits ds (s * 16 + d) tail acc (fun x hx => hd x (List.mem_cons_of_mem _ hx)) hv']
+    simp [digitsVal]
+
+theorem hexDigitsLE_ne_nil (fuel n : Nat) : hexDigitsLE (fuel + 1) n ≠ [] := by
+  simp only [hexDigitsLE]
+  split <;> simp
+
+theorem hexDigits_ne_nil (n : Nat) : hexDigits n ≠ [] := by
+  simp only [hexDigits, ne_eq, List.reverse_eq_nil_iff]
+  exact hexDigitsLE_ne_nil n n
 
 theorem hexDigitsLE_lt (fuel n : Nat) : ∀ d ∈ hexDigitsLE fuel n, d < 16 := by
   induction fuel generalizing n with
@@ -621,8 +651,8 @@ theorem hexDigits_lt (n : Nat) : ∀ d ∈ hexDigits n, d < 16 := by
   simp only [hexDigits, List.mem_reverse] at hd
   exact hexDigitsLE_lt _ _ d hd
 
-theorem ctl_size_cr (n : Nat) : ctl .size n 13 = some (.sizeLf, n) := rfl
-theorem ctl_size_zero : ctl .size 0 48 = some (.size, 0) := rfl
+theorem ctl_size_cr (n : Nat) : ctl .sizeDigit n 13 = some (.sizeLf, n) := rfl
+theorem ctl_size_zero : ctl .size 0 48 = some (.sizeDigit, 0) := rfl
 theorem ctl_sizeLf_lf (n : Nat) : ctl .sizeLf n 10 = if n > 0 then some (.body, n) else some (.endCr, n) := rfl
 theorem ctl_bodyCr_cr (n : Nat) : ctl .bodyCr n 13 = some (.bodyLf, n) := rfl
 theorem ctl_bodyLf_lf (n : Nat) : ctl .bodyLf n 10 = some (.size, n) := rfl
@@ -637,7 +667,7 @@ theorem runBytes_chunk (c tail acc : Bytes) (hne : c ≠ []) (hlen : c.length < 
     | nil => exact absurd rfl hne
     | cons _ _ => simp
   simp only [encodeChunk, hexBytes, List.append_assoc]
-  rw [runBytes_digits (hexDigits c.length) 0 _ acc (hexDigits_lt _) (by rw [hexDigits_val]; exact hlen)]
+  rw [runBytes_size_line (hexDigits c.length) (hexDigits_ne_nil _) 0 _ acc (hexDigits_lt _) (by rw [hexDigits_val]; exact hlen)]
   rw [hexDigits_val]
   simp only [crlf, List.cons_append, List.nil_append]
   -- CR LF after the size
